@@ -79,6 +79,16 @@ def catalogue(spec: ModelSpec, rng: random.Random):
                 m = clone(spec)
                 m.assigns = _insert(m.assigns, (name, new_rhs, comp, None), k, where)
                 yield (f"dup_{kind0}:{vn}", kind0, f"{where}/same_comp", m, name)
+            if comp and spec.assigns[-1][2] != comp:
+                # the same component written as two blocks: the second definition sits in the later block
+                m = clone(spec)
+                m.assigns = list(m.assigns) + [(name, new_rhs, comp, None)]
+                yield (f"dup_{kind0}:{vn}", kind0, "other_block/same_comp", m, name)
+            elif comp and k + 1 < len(spec.assigns):
+                # ... or the later block follows a block of another component that is opened just for that
+                m = clone(spec)
+                m.assigns = list(m.assigns) + [("zz_block_separator", "0.5", "separator comp", None), (name, new_rhs, comp, None)]
+                yield (f"dup_{kind0}:{vn}", kind0, "other_block/same_comp", m, name)
             m = clone(spec)
             oc = other_component(spec, comp)
             if kind0 == "intermediate":
